@@ -14,18 +14,20 @@ Definition exn_code (e : exn) : Z :=
   | NotImplementedErr => 6 | OutOfFuel => 7 | ModelStuck => 8
   end.
 
-Record obs := mkobs { o_code : Z; o_out : list elem; o_items : list elem; o_idx : list (list Z) }.
+(* o_has_idx = false: the private index caches could not be observed on this implementation (renamed /
+   restructured); only the behavioural part (result, exception class, raw list) is compared. *)
+Record obs := mkobs { o_code : Z; o_out : list elem; o_items : list elem; o_has_idx : bool; o_idx : list (list Z) }.
 Record vcase := mkvcase { c_items : list elem; c_steps : list (op * obs) }.
 
 Definition obs_of (s : st) (r : out) : obs :=
   mkobs (match r with Ok _ => 0 | Err e => exn_code e end)
         (match r with Ok l => l | Err _ => [] end)
-        (items s) (map v_idx (views s)).
+        (items s) true (map v_idx (views s)).
 
 Definition obs_eqb (a b : obs) : bool :=
   (o_code a =? o_code b) && list_eqb elem_eqb (o_out a) (o_out b)
   && list_eqb elem_eqb (o_items a) (o_items b)
-  && list_eqb (list_eqb Z.eqb) (o_idx a) (o_idx b).
+  && (negb (o_has_idx a && o_has_idx b) || list_eqb (list_eqb Z.eqb) (o_idx a) (o_idx b)).
 
 Fixpoint check_steps (fx : bool) (s : st) (steps : list (op * obs)) : bool :=
   match steps with
@@ -62,7 +64,9 @@ Fixpoint zip_idx (vs : list view) (idx : list (list Z)) : list view :=
   | _, _ => []
   end.
 (* the implementation's state as dumped (tags/kinds of the registered views from the history) *)
-Definition impl_state (model : st) (ob : obs) : st := mkst (o_items ob) (zip_idx (views model) (o_idx ob)).
+Definition impl_state (model : st) (ob : obs) : st :=
+  mkst (o_items ob) (if o_has_idx ob then zip_idx (views model) (o_idx ob)
+                     else map (handle (o_items ob)) (views model)).
 
 Fixpoint check_hyps_steps (s prev : st) (steps : list (op * obs)) : bool :=
   match steps with
